@@ -303,6 +303,29 @@ theorem hex_border_rotated (half hh R g pad : K) (sinT cosT : Nat → K) (size :
   exact ⟨index_clear_of_border size i _ pad hpad hE r1 r2, index_clear_of_border size j _ pad hpad hE c1 c2⟩
 
 
+
+theorem kf_vertex_pixel (half hh : K) (sinT cosT : Nat → K) (n : Int) (R : ℕ) (hhpos : 0 < hh)
+    (hT : sinT 0 = 1 / 2 ∧ cosT 0 = hh ∧ sinT 1 = 1 ∧ cosT 1 = 0 ∧ sinT 2 = 1 / 2 ∧ cosT 2 = -hh ∧
+          sinT 3 = -(1 / 2) ∧ cosT 3 = -hh ∧ sinT 4 = -1 ∧ cosT 4 = 0 ∧ sinT 5 = -(1 / 2) ∧ cosT 5 = hh) :
+    hexagonAt half ((R : K) * hh) sinT cosT n n 0 0 false (n / 2) (n / 2 + R) = 1 ∧
+    hexagonAt half ((R : K) * hh) sinT cosT n n (hexToRC (2 * hh) hh (3 / 2) (1, 0, -1) ((R : K) + 0 / 2) false).1
+      (hexToRC (2 * hh) hh (3 / 2) (1, 0, -1) ((R : K) + 0 / 2) false).2 false (n / 2) (n / 2 + R) = 1 := by
+  obtain ⟨s0, c0, s1, c1, s2, c2, s3, c3, s4, c4, s5, c5⟩ := hT
+  have hR : (0 : K) ≤ R := Nat.cast_nonneg R
+  have hRh : 0 ≤ (R : K) * hh := mul_nonneg hR hhpos.le
+  constructor
+  · rw [hexagonAt_eq_one_iff]
+    intro k hk
+    have h : k = 0 ∨ k = 1 ∨ k = 2 ∨ k = 3 ∨ k = 4 ∨ k = 5 := by omega
+    rcases h with rfl | rfl | rfl | rfl | rfl | rfl <;>
+      simp only [s0, c0, s1, c1, s2, c2, s3, c3, s4, c4, s5, c5, meshCoord] <;> push_cast <;> nlinarith
+  · rw [hexagonAt_eq_one_iff]
+    intro k hk
+    have h : k = 0 ∨ k = 1 ∨ k = 2 ∨ k = 3 ∨ k = 4 ∨ k = 5 := by omega
+    rcases h with rfl | rfl | rfl | rfl | rfl | rfl <;>
+      simp only [s0, c0, s1, c1, s2, c2, s3, c3, s4, c4, s5, c5, meshCoord, hexToRC, Bool.false_eq_true, if_false] <;> push_cast <;> nlinarith
+
+
 theorem segCells_sum (k : Nat) (c : HexCell) (hc : c ∈ segCells k) : c.1 + c.2.1 + c.2.2 = 0 := by
   induction k with
   | zero => simp only [segCells, List.mem_singleton] at hc; subst hc; rfl
